@@ -5,7 +5,8 @@ from .. import rt, framework as fw, witnesses
 from ..model import Driver
 from . import _scn
 
-ZONES = ["UTC", "Europe/Berlin", "America/New_York", "Australia/Sydney", "Asia/Kolkata", "Pacific/Chatham", "America/St_Johns", "Pacific/Marquesas", "Asia/Kathmandu", "Africa/Casablanca",
+ZONES = ["UTC", "Europe/Berlin", "America/New_York", "Australia/Sydney", "Europe/Dublin", "Pacific/Chatham", "America/St_Johns", "Europe/Moscow", "Asia/Kolkata", "Pacific/Marquesas", "Asia/Kathmandu", "Africa/Casablanca",
+         "America/Caracas", "Europe/Istanbul",
          "<+0330>-3:30", "<-0930>9:30", "CET-1CEST,M3.5.0,M10.5.0/3", "EST5EDT,M3.2.0,M11.1.0", "<+1245>-12:45<+1345>,M9.5.0/2:45,M4.1.0/3:45", "UTC-14", "UTC+12"]
 
 
@@ -90,10 +91,17 @@ def run(ctx):
     try:
         for z in zones:
             set_tz(z)
+            # zones change their rules: file times from other years are judged by the rules in force THEN (negative
+            # DST in Europe/Dublin, Moscow's +04 years, Caracas' -04:30 years, Istanbul before 2016)
+            years = [2026] + ([2012, 2015] if z in IANA and z != "UTC" else []) + ([2009, 2011, 2014, 2016, 1999, 1985] if ctx.thorough and z in IANA and z != "UTC" else [])
+            work = []
+            for y in years:
+                pts, base, trs, lo, hi = critical_instants(z, y)
+                extra = [rnd.randint(lo, hi) for _ in range(ctx.scale(10, 200) if y == 2026 else 4)]
+                work.append((pts + extra, base, trs))
             pts, base, trs, lo, hi = critical_instants(z)
-            extra = [rnd.randint(lo, hi) for _ in range(ctx.scale(10, 200))]
-            dist["zones"][z] = len(pts) + len(extra)
-            for ts in pts + extra:
+            dist["zones"][z] = sum(len(w[0]) for w in work)
+            for ts, base, trs in [(ts, b_, t_) for (pp, b_, t_) in work for ts in pp]:
                 evals += 1
                 naive = datetime.datetime.fromtimestamp(ts)
                 if naive.fold:
@@ -138,6 +146,14 @@ def run(ctx):
                     ts = pref[i] if i < len(pref) else pts[(i * 7 + len(z)) % len(pts)]
                     os.utime(p, (ts, ts))
                     mt[n] = ts
+                # a file reached through a symbolic link is hashed through the link: its record carries the size and
+                # time of the content that was hashed
+                try:
+                    os.symlink("big.bin", os.path.join(root, "link.bin"))
+                    sizes["link.bin"] = sizes["big.bin"]
+                    mt["link.bin"] = mt["big.bin"]
+                except OSError:
+                    pass
                 t0 = time.time()
                 x = rt.run("create", [root, "-h", "md5"])
                 t1 = time.time()
